@@ -402,7 +402,7 @@ class Check:
         self.transitions += r.generated
         for a, (tk, gn) in r.coverage.items():
             o = self.cov.get(a, 0)
-            self.cov[a] = o + tk
+            self.cov[a] = o + gn
         self.note("TLC %s/%s: %s" % (os.path.basename(module_path), os.path.basename(cfg_path), r.summary()))
         return r
 
